@@ -4,8 +4,14 @@
 package main
 
 import (
+	"errors"
+	"fmt"
+	"net"
+
+	netty "github.com/go-netty/go-netty"
 	"github.com/go-netty/go-netty/zz_verif/explore"
 	"github.com/go-netty/go-netty/zz_verif/hlib"
+	"github.com/go-netty/go-netty/zz_verif/vsched"
 )
 
 func build(tier string) []*explore.Scenario {
@@ -55,6 +61,30 @@ func build(tier string) []*explore.Scenario {
 		}
 		for _, until := range []bool{true, false} {
 			scs = append(scs, hlib.WriteScenario(hlib.WParams{Cfg: hlib.ChanCfg{Q: q, Until: until}, Writers: [][]hlib.EP{burst, {hlib.Writev, hlib.Write1}}, Bound: 1, Cache: true, Tag: "burst"}, hlib.CheckQuiescent))
+		}
+	}
+	// a transport write that fails in the background sender (a plain error, a connection reset, an expired
+	// write deadline) under an application that consumes exceptions: if the channel is still open when
+	// everything is at rest, nothing accepted may be left behind
+	for _, q := range []int{2, 5} {
+		for ei, werr := range []error{nil, &net.OpError{Op: "write", Net: "mock", Err: errors.New("connection reset")}, &net.OpError{Op: "write", Net: "mock", Err: hlib.TimeoutErr{}}} {
+			for _, at := range []int{1, 2} {
+				werr, at := werr, at
+				var burst []hlib.EP
+				for i := 0; i < q+2; i++ {
+					burst = append(burst, []hlib.EP{hlib.Write1, hlib.Writev, hlib.CtxWrite1}[i%3])
+				}
+				scs = append(scs, hlib.WriteScenario(hlib.WParams{Cfg: hlib.ChanCfg{Q: q, Until: true}, Writers: [][]hlib.EP{burst, {hlib.Writev}}, Bound: 1, Cache: true,
+					Tag:      fmt.Sprintf("write#%d-fails(%s)+exceptions-consumed", at, []string{"error", "reset", "timeout"}[ei]),
+					Handlers: func() []netty.Handler { return []netty.Handler{&hlib.Consumer{}} },
+					Prep:     func(e *hlib.Env) { e.T.FailWriteAt, e.T.WriteErr = at, werr },
+				}, func(x *vsched.Exec, o *hlib.WObs) []explore.Finding {
+					if !o.Env.Ch.IsActive() {
+						return nil // the failure closed the channel: nothing is promised for a closed channel
+					}
+					return hlib.CheckQuiescent(x, o)
+				}))
+			}
 		}
 	}
 	// size sweep: boundary sizes through every entry point (deviation bound 1)
